@@ -74,6 +74,9 @@ def make_case(seed, shard, i):
     prog, rows = lang.gen_case(r, FEATURES)
     prog = lang.tolist(prog)
     prog["mode"] = "AND"
+    if r.random() < 0.08 and rows:
+        # the file ends with a record of one cell holding nothing but whitespace (a record all the same)
+        rows = rows + [[r.choice([" ", "", "\t"])]]
     cm = gen_comment(r)
     placement = r.choice(["before", "before", "after", "both"])
     # a caller who set defaults on the instance before parsing: the comment's own settings still take effect
@@ -218,6 +221,17 @@ def run_case(case, agg):
             return "no-run-still-ran", w
         return None, None
     inverted = modes["return-mode"] == "no-matches"
+    # ---- "the scanned lines": the records the scan part denotes (blank records apart), as far as the run read
+    from vfy import model as _model
+
+    kind_, val_ = _model.parse_scan(prog["scan"])
+    denoted = [i for i, row in enumerate(rows[: run["records_read"]]) if len(row) > 0 and (kind_ == "all" or (kind_ == "from" and i >= val_) or (kind_ == "set" and i in val_))]
+    offered = [ev["pln"] for ev in run["rec"].lines if ev["considered"]]
+    if offered != denoted:
+        w["scan"] = prog["scan"]
+        w["lines_the_scan_denotes_(read_so_far)"] = denoted
+        w["lines_offered_to_the_match_part"] = offered
+        return "scanned-lines", w
     # ---- same run apart from the return decision
     bt, rt = base["trace"], run["trace"]
     if len(bt) != len(rt):
